@@ -39,6 +39,8 @@ impl TargetActors {
     ) -> Result<&'a TargetActorHandleSet> {
         if !&self.target_actor_handles.contains_key(target_id) {
             let (owned_target_id, target) = self.targets.remove_entry(target_id).unwrap();
+            #[cfg(zinoma_verif)]
+            crate::verif::emit("launch", &target_id.to_string(), &[]);
             let (join_handle, handles) = target_actor::launch_target_actor(
                 target,
                 self.watch_option,
@@ -62,6 +64,8 @@ impl TargetActors {
     }
 
     pub async fn request_target(&mut self, target_id: &TargetId) -> Result<()> {
+        #[cfg(zinoma_verif)]
+        crate::verif::emit("root_request", &target_id.to_string(), &[]);
         let handles = self.get_target_actor_handles(target_id)?;
         for &kind in &[ExecutionKind::Build, ExecutionKind::Service] {
             let build_msg = ActorInputMessage::Requested {
@@ -75,8 +79,16 @@ impl TargetActors {
     }
 
     pub async fn terminate(self) {
+        #[cfg(zinoma_verif)]
+        crate::verif::emit(
+            "terminate_begin",
+            "",
+            &[("launched", crate::verif::js_set(self.target_actor_handles.keys().map(ToString::to_string)))],
+        );
         Self::send_termination_message(&self.target_actor_handles).await;
         future::join_all(self.target_actor_join_handles).await;
+        #[cfg(zinoma_verif)]
+        crate::verif::emit("terminate_end", "", &[]);
     }
 
     async fn send_termination_message(
